@@ -17,11 +17,12 @@ if [ -n "$DEMO" ]; then
   # the README says where the demonstration goes: "cp .../demo_test.go <dir>/..."
   D2=$(grep -o "cp [^ ]*demo[^ ]*_test.go  *[a-z/]*/" $O/README.md | head -1 | awk '{print $3}' | sed 's#/$##')
   [ -n "$D2" ] && [ -d "$D2" ] && DIR=$D2
+  [ "$PKG" = main ] && DIR=.
   cp $DEMO $DIR/zz_seed_demo_test.go
   NAMES=$(grep -o "^func Test[A-Za-z0-9_]*" $DEMO | sed 's/func //' | paste -sd'|')
-  go test -vet=off -count=1 -run "^($NAMES)\$" ./$DIR/ > $O/confirm-demo-with.log 2>&1; DW=$?
+  go test -vet=off -count=1 -run "^($NAMES)\$" ./$DIR > $O/confirm-demo-with.log 2>&1; DW=$?
   git apply -R $O/patch.diff
-  go test -vet=off -count=1 -run "^($NAMES)\$" ./$DIR/ > $O/confirm-demo-without.log 2>&1; DO=$?
+  go test -vet=off -count=1 -run "^($NAMES)\$" ./$DIR > $O/confirm-demo-without.log 2>&1; DO=$?
   rm -f $DIR/zz_seed_demo_test.go
 elif [ -f $O/main.go ]; then
   mkdir -p zzdemo && cp $O/main.go zzdemo/main.go
